@@ -201,3 +201,156 @@ Proof.
   rewrite split_join; [|unfold li_tokens; congruence|apply li_tokens_nosep; exact H].
   rewrite (spec_langid_tokens _ H). reflexivity.
 Qed.
+
+(* ---------- the EBNF as a relation, and its equivalence with the recogniser ---------- *)
+Definition opt_holds (p : bytes -> bool) (o : option bytes) : Prop :=
+  match o with Some t => p t = true | None => True end.
+
+Inductive WFLangIdToks : list bytes -> langid -> Prop :=
+| WF_intro l sc rg vs :
+    lang_tok l = true -> opt_holds script_tok sc -> opt_holds region_tok rg -> forallb variant_tok vs = true ->
+    WFLangIdToks (l :: opt_tok sc ++ opt_tok rg ++ vs)
+                 (mkLangId (spec_language_value l) (option_map title sc) (option_map norm_region rg) (spec_variants vs)).
+
+Lemma take_drop_while p l : take_while p l ++ drop_while p l = l.
+Proof. induction l as [|x l IH]; cbn [take_while drop_while]; [reflexivity|]. destruct (p x); cbn [app]; [f_equal; exact IH|reflexivity]. Qed.
+Lemma take_while_forall p l : forallb p (take_while p l) = true.
+Proof. induction l as [|x l IH]; cbn [take_while forallb]; [reflexivity|]. destruct (p x) eqn:E; cbn [forallb]; [rewrite E, IH|]; reflexivity. Qed.
+
+Theorem spec_langid_iff toks v : spec_langid toks = Some v <-> WFLangIdToks toks v.
+Proof.
+  split.
+  - unfold spec_langid, spec_langid_prefix. destruct toks as [|l rest]; [discriminate|].
+    destruct (lang_tok l) eqn:Hl; [|discriminate].
+    destruct (take_script rest) as [sc r1] eqn:Es. destruct (take_region r1) as [rg r2] eqn:Er.
+    destruct (drop_while variant_tok r2) eqn:Ed; [|discriminate]. intros H. injection H as <-.
+    assert (Hr2 : r2 = take_while variant_tok r2) by (rewrite <- (take_drop_while variant_tok r2) at 1; rewrite Ed, app_nil_r; reflexivity).
+    (* recover the raw script / region tokens *)
+    assert (exists sc0, opt_holds script_tok sc0 /\ sc = option_map title sc0 /\ rest = opt_tok sc0 ++ r1) as (sc0 & Hs0 & -> & ->).
+    { destruct rest as [|t r]; cbn [take_script] in Es.
+      - injection Es as <- <-. exists None. cbn. auto.
+      - destruct (script_tok t) eqn:Et; injection Es as <- <-; [exists (Some t)|exists None]; cbn; auto. }
+    assert (exists rg0, opt_holds region_tok rg0 /\ rg = option_map norm_region rg0 /\ r1 = opt_tok rg0 ++ r2) as (rg0 & Hr0 & -> & ->).
+    { destruct r1 as [|t r]; cbn [take_region] in Er.
+      - injection Er as <- <-. exists None. cbn. auto.
+      - destruct (region_tok t) eqn:Et; injection Er as <- <-; [exists (Some t)|exists None]; cbn; auto. }
+    rewrite Hr2 at 1. rewrite <- Hr2. constructor; auto. rewrite Hr2. apply take_while_forall.
+  - intros H. destruct H as [l sc rg vs Hl Hs Hr Hv].
+    unfold spec_langid, spec_langid_prefix. rewrite Hl.
+    destruct (take_while_all _ _ Hv) as [Htw Hdw].
+    assert (HVs : take_script vs = (None, vs)).
+    { destruct vs as [|t V']; [reflexivity|]. cbn [take_script forallb] in *. apply andb_true_iff in Hv as [Ht1 _].
+      rewrite (variant_not_script _ Ht1). reflexivity. }
+    assert (HVr : take_region vs = (None, vs)).
+    { destruct vs as [|t V']; [reflexivity|]. cbn [take_region forallb] in *. apply andb_true_iff in Hv as [Ht1 _].
+      rewrite (variant_not_region _ Ht1). reflexivity. }
+    destruct sc as [s|]; cbn [opt_tok app opt_holds option_map] in *.
+    + cbn [take_script]. rewrite Hs. destruct rg as [r|]; cbn [opt_tok app opt_holds option_map] in *.
+      * cbn [take_region]. rewrite Hr, Htw, Hdw. reflexivity.
+      * rewrite HVr, Htw, Hdw. reflexivity.
+    + destruct rg as [r|]; cbn [opt_tok app opt_holds option_map] in *.
+      * cbn [take_script]. rewrite (region_not_script _ Hr). cbn [take_region]. rewrite Hr, Htw, Hdw. reflexivity.
+      * rewrite HVs, HVr, Htw, Hdw. reflexivity.
+Qed.
+
+(* ---------- every parsed value satisfies the safe-API invariant (C04 reach: parsing) ---------- *)
+Lemma lower_alnum_tok_idem t : beqb (lower (lower t)) (lower t) = true.
+Proof. rewrite lower_idem. apply beqb_refl. Qed.
+
+Lemma lower_forallb_alpha t : forallb is_alpha (lower t) = forallb is_alpha t.
+Proof.
+  induction t as [|b t IH]; cbn [lower map forallb]; [reflexivity|]. fold (lower t). rewrite IH. f_equal.
+  unfold to_lower, is_alpha, is_upper, is_lower, in_range. destruct ((65 <=? b) && (b <=? 90)) eqn:E; lia.
+Qed.
+Lemma lower_forallb_alnum t : forallb is_alnum (lower t) = forallb is_alnum t.
+Proof.
+  induction t as [|b t IH]; cbn [lower map forallb]; [reflexivity|]. fold (lower t). rewrite IH. f_equal.
+  unfold to_lower, is_alnum, is_alpha, is_upper, is_lower, is_digit, in_range. destruct ((65 <=? b) && (b <=? 90)) eqn:E; lia.
+Qed.
+Lemma upper_forallb_alpha t : forallb is_alpha (upper t) = forallb is_alpha t.
+Proof.
+  induction t as [|b t IH]; cbn [upper map forallb]; [reflexivity|]. fold (upper t). rewrite IH. f_equal.
+  unfold to_upper, is_alpha, is_upper, is_lower, in_range. destruct ((97 <=? b) && (b <=? 122)) eqn:E; lia.
+Qed.
+Lemma to_upper_idem b : to_upper (to_upper b) = to_upper b.
+Proof. unfold to_upper, is_lower, in_range. destruct ((97 <=? b) && (b <=? 122)) eqn:E; [|rewrite E; reflexivity].
+  destruct ((97 <=? b - 32) && (b - 32 <=? 122)) eqn:E2; [lia|reflexivity]. Qed.
+Lemma upper_idem s : upper (upper s) = upper s.
+Proof. unfold upper. rewrite map_map. apply map_ext. apply to_upper_idem. Qed.
+Lemma to_lower_upper_lower b : to_lower (to_lower b) = to_lower b.
+Proof. apply to_lower_idem. Qed.
+
+Lemma lang_value_canon l : lang_tok l = true -> canon_lang (spec_language_value l) = true.
+Proof.
+  intros H. unfold spec_language_value. destruct (beqb (lower l) und_b) eqn:E; [reflexivity|].
+  cbn [canon_lang]. rewrite lower_idem, beqb_refl, E. cbn [negb andb]. rewrite andb_true_r.
+  unfold lang_tok, len_in in *. rewrite lower_forallb_alpha, lower_length, andb_true_r. exact H.
+Qed.
+Lemma title_canon t : script_tok t = true -> canon_script (title t) = true.
+Proof.
+  unfold canon_script, script_tok. intros H. apply andb_true_iff in H as [Ha Hl].
+  destruct t as [|c r]; [discriminate|]. cbn [title forallb length] in *. apply andb_true_iff in Ha as [Hc Hr].
+  rewrite lower_forallb_alpha, Hr, lower_length, Hl, andb_true_r.
+  rewrite to_upper_idem, lower_idem, beqb_refl, andb_true_r.
+  unfold to_upper, is_alpha, is_upper, is_lower, in_range in *. destruct ((97 <=? c) && (c <=? 122)) eqn:E; lia.
+Qed.
+Lemma norm_region_canon t : region_tok t = true -> canon_region (norm_region t) = true.
+Proof.
+  unfold canon_region, region_tok, norm_region. intros H.
+  destruct (length t =? 2)%nat eqn:E2.
+  - rewrite upper_length, E2, upper_idem, beqb_refl, andb_true_r, upper_forallb_alpha.
+    apply orb_true_iff in H as [H|H]; [|lia]. rewrite H. reflexivity.
+  - rewrite E2, beqb_refl, andb_true_r. exact H.
+Qed.
+Lemma lower_variant_canon t : variant_tok t = true -> canon_variant (lower t) = true.
+Proof.
+  unfold canon_variant. intros H. rewrite lower_idem, beqb_refl, andb_true_r.
+  unfold variant_tok, len_in in *. rewrite lower_forallb_alnum, lower_length.
+  destruct t as [|c r]; [exact H|]. cbn [lower map]. fold (lower r). rewrite lower_forallb_alnum, lower_length.
+  assert (Hd : is_digit c = true -> is_digit (to_lower c) = true).
+  { unfold to_lower, is_digit, is_upper, in_range. destruct ((65 <=? c) && (c <=? 90)) eqn:E; lia. }
+  apply orb_true_iff in H as [H|H]; [rewrite H; reflexivity|].
+  apply orb_true_iff. right. apply andb_true_iff in H as [H H3]. apply andb_true_iff in H as [Hc Hr]. rewrite Hr, H3, (Hd Hc). reflexivity.
+Qed.
+
+Lemma forallb_In_iff {A} (p : A -> bool) a b : (forall y, In y a <-> In y b) -> forallb p a = forallb p b.
+Proof.
+  intros H. destruct (forallb p a) eqn:Ea, (forallb p b) eqn:Eb; try reflexivity.
+  - rewrite forallb_forall in Ea. assert (forallb p b = true) by (apply forallb_forall; intros x Hx; apply Ea, H, Hx). congruence.
+  - rewrite forallb_forall in Eb. assert (forallb p a = true) by (apply forallb_forall; intros x Hx; apply Eb, H, Hx). congruence.
+Qed.
+
+Lemma spec_variants_inv vs : forallb variant_tok vs = true -> variants_inv (spec_variants vs) = true.
+Proof.
+  intros H. destruct vs as [|v vs']; [reflexivity|]. unfold spec_variants.
+  set (L := map lower (v :: vs')). cbn [variants_inv]. fold (canon L).
+  assert (HL : forallb canon_variant L = true).
+  { unfold L. rewrite forallb_forall in *. intros x Hx. apply in_map_iff in Hx as (y & <- & Hy). apply lower_variant_canon, H, Hy. }
+  rewrite (forallb_In_iff canon_variant (canon L) L (fun y => canon_In y L)), HL.
+  assert (Hs : ssortedb (canon L) = true) by (apply ssortedb_iff, canon_sorted). rewrite Hs.
+  destruct (canon L) eqn:E; [|reflexivity]. apply (proj1 (canon_nil_iff L)) in E. subst L; cbn [map] in E; discriminate.
+Qed.
+
+Theorem spec_langid_prefix_inv toks v rem : spec_langid_prefix toks = Some (v, rem) -> li_inv v = true.
+Proof.
+  unfold spec_langid_prefix. destruct toks as [|l rest]; [intros H; injection H as <- <-; reflexivity|].
+  destruct (lang_tok l) eqn:Hl; [|discriminate].
+  destruct (take_script rest) as [sc r1] eqn:Es. destruct (take_region r1) as [rg r2] eqn:Er.
+  intros H. injection H as <- <-. unfold li_inv. cbn [li_lang li_script li_region li_variants].
+  rewrite (lang_value_canon _ Hl). cbn [andb].
+  assert (opt_all canon_script sc = true) as ->.
+  { destruct rest as [|t r]; cbn [take_script] in Es; [injection Es as <- <-; reflexivity|].
+    destruct (script_tok t) eqn:Et; injection Es as <- <-; [apply title_canon; exact Et|reflexivity]. }
+  assert (opt_all canon_region rg = true) as ->.
+  { destruct r1 as [|t r]; cbn [take_region] in Er; [injection Er as <- <-; reflexivity|].
+    destruct (region_tok t) eqn:Et; injection Er as <- <-; [apply norm_region_canon; exact Et|reflexivity]. }
+  cbn [andb]. apply spec_variants_inv, take_while_forall.
+Qed.
+
+Corollary langid_parse_inv s v : langid_from_bytes s = Ok v -> li_inv v = true.
+Proof.
+  rewrite langid_from_bytes_spec. unfold spec_langid.
+  destruct (split s) as [|t r] eqn:Es; [discriminate|].
+  destruct (spec_langid_prefix (t :: r)) as [[v' rem]|] eqn:E; [|discriminate].
+  destruct rem; [|discriminate]. intros H. injection H as <-. eapply spec_langid_prefix_inv; eassumption.
+Qed.
